@@ -178,7 +178,12 @@ structure TokenResponse where
   IDToken : Str := []
   AccessToken : Str := []
   RefreshToken : Str := []
+  AccessTokenExpiresAt : Go.Time := {}
   deriving Repr, BEq, DecidableEq
+def TokenResponse.AccessTokenExpiresAt! (r : TokenResponse) : M Go.Time := if r.isNil then nilPanic else pure r.AccessTokenExpiresAt
+/-- `(*TokenResponse).ParseIDToken()`: reads `t.IDToken` (nil receiver panics), then `ParseToken` -/
+def parseIDToken (env : Go.Env) (r : TokenResponse) : M (Go.JwtToken × Go.Error) :=
+  if r.isNil then nilPanic else pure (env.parseToken r.IDToken)
 def TokenResponse.IDToken! (r : TokenResponse) : M Str := if r.isNil then nilPanic else pure r.IDToken
 def TokenResponse.AccessToken! (r : TokenResponse) : M Str := if r.isNil then nilPanic else pure r.AccessToken
 def TokenResponse.RefreshToken! (r : TokenResponse) : M Str := if r.isNil then nilPanic else pure r.RefreshToken
@@ -188,6 +193,8 @@ structure OidcHandler where
   config : OIDCConfig := {}
   deriving Repr, BEq, DecidableEq
 def OidcHandler.config! (o : OidcHandler) : M OIDCConfig := if o.isNil then nilPanic else pure o.config
+/-- `o.clock.Now()` -/
+def clockNow (env : Go.Env) (o : OidcHandler) : M Go.Time := if o.isNil then nilPanic else pure env.now
 
 
 /-! ### rpc Status, envoy CheckResponse (the HTTP part is the model's `HttpResp`), mock config, filter, chain, config,
